@@ -154,8 +154,40 @@ impl<const N: usize> StateVec<N> {
 
 /*@type file=src/subdevice_group/tx_rx_response.rs name=TxRxResponse subst="heapless::Vec<SubDeviceState, N>=>StateVec<N>" @*/
 
+impl EtherCrabWireWrite for u64 {
+    open spec fn packed(&self) -> Seq<u8> { Seq::new(8, |i: int| ((*self as int / pow256(i)) % 256) as u8) }
+    #[verifier::external_body]
+    fn packed_len(&self) -> (r: usize) { 8 }
+}
+pub open spec fn pow256(i: int) -> int decreases i { if i <= 0 { 1 } else { 256 * pow256(i - 1) } }
+pub uninterp spec fn le64(b: Seq<u8>) -> u64;
+pub struct U64W;
+impl U64W {
+    pub const PACKED_LEN: usize = 8;
+}
+/// `u64::unpack_from_slice` (ethercrab-wire/src/impls.rs)
+#[verifier::external_body]
+pub fn u64_unpack_from_slice(buf: &[u8]) -> (r: Result<u64, WireError>)
+    ensures buf@.len() >= 8 ==> r == Ok::<u64, WireError>(le64(buf@)), buf@.len() < 8 ==> r is Err
+{ unimplemented!() }
+
+/// stand-in for core::time::Duration (only constructed from nanoseconds here)
+pub struct Duration { pub nanos: u64 }
+impl Duration {
+    pub fn from_nanos(n: u64) -> (r: Duration) ensures r.nanos == n { Duration { nanos: n } }
+}
+/*@type file=src/subdevice_group/mod.rs name=CycleInfo @*/
+/*@type file=src/subdevice_group/mod.rs name=HasDc @*/
+pub const DC_PDU_SIZE: usize = 20;     // CreatedFrame::PDU_OVERHEAD_BYTES (12) + u64::PACKED_LEN (8); src/subdevice_group/mod.rs:38
+
+impl MainDevice {
+    /// configured address of the DC reference SubDevice, if one was found during init (an atomic read in the real code)
+    #[verifier::external_body]
+    pub fn dc_ref_address(&self) -> (r: Option<u16>) { unimplemented!() }
+}
+
 /// the fields of SubDeviceGroup that the cycle reads
-pub struct Grp<const MAX_PDI: usize> { pub read_pdi_len: usize, pub pdi_len: usize, pub start_address: u32, pub subdevices: Vec<SubDevice>, pub pdi: PdiLock<MAX_PDI> }
+pub struct Grp<const MAX_PDI: usize> { pub read_pdi_len: usize, pub pdi_len: usize, pub start_address: u32, pub subdevices: Vec<SubDevice>, pub pdi: PdiLock<MAX_PDI>, pub dc_conf: HasDc }
 
 impl<const MAX_PDI: usize> Grp<MAX_PDI> {
     pub open spec fn wf(&self) -> bool { self.read_pdi_len <= self.pdi_len <= MAX_PDI }
@@ -245,6 +277,169 @@ impl<const MAX_PDI: usize> Grp<MAX_PDI> {
         // the whole image was sent and every SubDevice's state was requested
         assert(total_bytes_sent == self.pdi_len);
         assert(total_checks == self.subdevices@.len());
+    }
+@*/
+
+/*@fn file=src/subdevice_group/mod.rs impl="impl<const MAX_SUBDEVICES: usize, const MAX_PDI: usize, R: RawRwLock, S, DC> SubDeviceGroup<MAX_SUBDEVICES, MAX_PDI, R, S, DC>" name=tx_rx_sync_system_time subst="<'sto>=><const MAX_SUBDEVICES: usize>@@&'sto MainDevice<'sto>=>&MainDevice@@self.inner().pdi_start.start_address=>self.start_address@@self.inner().subdevices.iter()=>self.sd_iter()@@heapless::Vec::<_, MAX_SUBDEVICES>::new()=>StateVec::<MAX_SUBDEVICES>::new()@@frame.await?=>frame.wait().await?@@u64::unpack_from_slice(&rx).map_err(Error::from)=>u64_unpack_from_slice(&rx).map_err(|e: WireError| -> (me: Error) ensures me == Error::Wire(e) { Error::from(e) })" props=C07 attr="#[verifier::loop_isolation(false)] #[verifier::allow_complex_invariants]" __brk0="Result<TxRxResponse<MAX_SUBDEVICES, Option<u64>>, Error>"
+    requires
+        self.wf(),
+        34 <= maindevice.pdu_loop.area <= 0x7ff,
+        self.start_address + self.pdi_len <= u32::MAX,
+        self.subdevices@.len() <= 0xffff,
+        self.subdevices@.len() <= MAX_SUBDEVICES,
+    ensures
+        r is Ok ==> (r->Ok_0).subdevice_states.v@.len() == self.subdevices@.len(),
+@after "let mut pdi_lock = self.pdi.write();"
+    let ghost img0 = pdi_lock.image@;
+    let ghost mut rx: Seq<u8> = Seq::<u8>::empty();
+    let ghost mut wsum: int = 0;
+@loop 0
+    invariant
+        total_bytes_sent <= self.pdi_len,
+        total_checks <= self.subdevices@.len(),
+        subdevices.rest@ == self.subdevices@.skip(total_checks as int),
+        forall|i: int| self.read_pdi_len <= i < MAX_PDI ==> pdi_lock.image@[i] == img0[i],
+        rx.len() == total_bytes_sent,
+        forall|i: int| 0 <= i < total_bytes_sent && i < self.read_pdi_len ==> pdi_lock.image@[i] == rx[i],
+        lrw_wkc_sum as int == (if wsum > 0xffff { 0xffff } else { wsum }), wsum >= 0,
+        subdevice_states.v@.len() == total_checks,
+    ensures
+        // on Ok the whole image was sent, every SubDevice checked, and the clock datagram answered
+        __brk0 is Ok ==> total_bytes_sent == self.pdi_len && total_checks == self.subdevices@.len() && time_read
+            && (__brk0->Ok_0).subdevice_states.v@.len() == self.subdevices@.len(),
+    decreases (self.pdi_len - total_bytes_sent) + (self.subdevices@.len() - total_checks) + (if time_read { 0int } else { 1int })
+@loop_start 0
+    let ghost img = pdi_lock.image@;
+    let ghost sent0: int = total_bytes_sent as int;
+    let ghost first_frame: bool = !time_read;
+@before "let (rest, num_checks_in_this_frame) = push_state_checks"
+    proof {
+        let off: int = if first_frame { 1int } else { 0int };
+        if first_frame {
+            assert(frame.pdus@[0].cmd == Command::Read(Reads::Frmw { address: dc_ref, register: 0x0910 }));
+            assert(frame.pdus@[0].len == 8);
+        }
+        if pushed_chunk is Some {
+            let n = (pushed_chunk->Some_0).0 as int;
+            assert(0 < n && sent0 + n <= self.pdi_len);
+            assert(frame.pdus@.len() == off + 1);
+            assert(frame.pdus@[off].cmd == Command::Write(Writes::Lrw { address: (self.start_address + sent0) as u32 }));
+            assert(frame.pdus@[off].len == n);
+            assert(frame.pdus@[off].data == img.subrange(sent0, sent0 + n));
+        } else {
+            assert(sent0 == self.pdi_len);
+            assert(frame.pdus@.len() == off);
+        }
+    }
+@after "let received = frame.await?;"
+    let ghost got = received.pdus@;
+    let ghost off: int = if first_frame { 1int } else { 0int };
+    let ghost has_lrw: int = if pushed_chunk is Some { 1int } else { 0int };
+    proof {
+        lemma_state_checks(self.subdevices@.skip(total_checks as int - num_checks_in_this_frame as int), num_checks_in_this_frame as nat);
+        assert(got.len() == off + has_lrw + num_checks_in_this_frame);
+    }
+@loop 1
+    invariant
+        __it0.rest@.len() <= got.len() - has_lrw - off,
+        subdevice_states.v@.len() + __it0.rest@.len() == total_checks,
+    decreases __it0.rest@.len()
+@loop_end 0
+    proof {
+        if pushed_chunk is Some {
+            let n = (pushed_chunk->Some_0).0 as int;
+            rx = rx + got[off].data.subrange(0, n);
+            wsum = wsum + got[off].wkc as int;
+        }
+    }
+@closure 0 "|rx: ReceivedPdu| -> (cr: Result<u64, Error>)"
+    ensures rx.data().len() >= 8 ==> cr == Ok::<u64, Error>(le64(rx.data()))
+@closure 1 "|response: TxRxResponse<MAX_SUBDEVICES, ()>| -> (cr: TxRxResponse<MAX_SUBDEVICES, Option<u64>>)"
+    ensures cr.working_counter == response.working_counter, cr.subdevice_states == response.subdevice_states, cr.extra is None
+@*/
+
+/*@fn file=src/subdevice_group/mod.rs impl="impl<const MAX_SUBDEVICES: usize, const MAX_PDI: usize, R: RawRwLock, S> SubDeviceGroup<MAX_SUBDEVICES, MAX_PDI, R, S, HasDc>" name=tx_rx_dc subst="<'sto>=><const MAX_SUBDEVICES: usize>@@&'sto MainDevice<'sto>=>&MainDevice@@self.inner().pdi_start.start_address=>self.start_address@@self.inner().subdevices.iter()=>self.sd_iter()@@heapless::Vec::<_, MAX_SUBDEVICES>::new()=>StateVec::<MAX_SUBDEVICES>::new()@@frame.await?=>frame.wait().await?@@u64::unpack_from_slice(&rx).map_err(Error::from)=>u64_unpack_from_slice(&rx).map_err(|e: WireError| -> (me: Error) ensures me == Error::Wire(e) { Error::from(e) })" props=C07,C18 attr="#[verifier::loop_isolation(false)] #[verifier::allow_complex_invariants]"
+    requires
+        self.wf(),
+        34 <= maindevice.pdu_loop.area <= 0x7ff,      // the clock datagram (20 bytes) plus one state check (14 bytes) fit
+        self.start_address + self.pdi_len <= u32::MAX,
+        self.subdevices@.len() <= 0xffff,
+        self.subdevices@.len() <= MAX_SUBDEVICES,
+        1 <= self.dc_conf.sync0_period <= u32::MAX,     // C18 quantifier
+        self.dc_conf.sync0_shift <= 0x2_0000_0000,
+    ensures
+        r is Ok ==> (r->Ok_0).subdevice_states.v@.len() == self.subdevices@.len(),
+        // C18: offset into the cycle = reference time mod period, suggested wait = (period - offset) + shift
+        r is Ok ==> (r->Ok_0).extra.cycle_start_offset.nanos as int == (r->Ok_0).extra.dc_system_time as int % self.dc_conf.sync0_period as int
+            && (r->Ok_0).extra.next_cycle_wait.nanos as int
+                == (self.dc_conf.sync0_period - (r->Ok_0).extra.cycle_start_offset.nanos) + self.dc_conf.sync0_shift,
+@after "let mut pdi_lock = self.pdi.write();"
+    let ghost img0 = pdi_lock.image@;
+    let ghost mut rx: Seq<u8> = Seq::<u8>::empty();
+    let ghost mut wsum: int = 0;
+@loop 0
+    invariant
+        total_bytes_sent <= self.pdi_len,
+        total_checks <= self.subdevices@.len(),
+        subdevices.rest@ == self.subdevices@.skip(total_checks as int),
+        forall|i: int| self.read_pdi_len <= i < MAX_PDI ==> pdi_lock.image@[i] == img0[i],
+        rx.len() == total_bytes_sent,
+        forall|i: int| 0 <= i < total_bytes_sent && i < self.read_pdi_len ==> pdi_lock.image@[i] == rx[i],
+        lrw_wkc_sum as int == (if wsum > 0xffff { 0xffff } else { wsum }), wsum >= 0,
+        subdevice_states.v@.len() == total_checks,
+    decreases (self.pdi_len - total_bytes_sent) + (self.subdevices@.len() - total_checks) + (if time_read { 0int } else { 1int })
+@loop_start 0
+    let ghost img = pdi_lock.image@;
+    let ghost sent0: int = total_bytes_sent as int;
+    let ghost first_frame: bool = !time_read;
+@before "let (rest, num_checks_in_this_frame) = push_state_checks"
+    proof {
+        // the first frame STARTS with exactly one FRMW(reference clock, 0x0910, 8 zero bytes); later frames carry none
+        let off: int = if first_frame { 1int } else { 0int };
+        if first_frame {
+            assert(frame.pdus@[0].cmd == Command::Read(Reads::Frmw { address: self.dc_conf.reference, register: 0x0910 }));
+            assert(frame.pdus@[0].len == 8);
+        }
+        if pushed_chunk is Some {
+            let n = (pushed_chunk->Some_0).0 as int;
+            assert(0 < n && sent0 + n <= self.pdi_len);
+            assert(frame.pdus@.len() == off + 1);
+            assert(frame.pdus@[off].cmd == Command::Write(Writes::Lrw { address: (self.start_address + sent0) as u32 }));
+            assert(frame.pdus@[off].len == n);
+            assert(frame.pdus@[off].data == img.subrange(sent0, sent0 + n));
+        } else {
+            assert(sent0 == self.pdi_len);
+            assert(frame.pdus@.len() == off);
+        }
+    }
+@after "let received = frame.await?;"
+    let ghost got = received.pdus@;
+    let ghost off: int = if first_frame { 1int } else { 0int };
+    let ghost has_lrw: int = if pushed_chunk is Some { 1int } else { 0int };
+    proof {
+        lemma_state_checks(self.subdevices@.skip(total_checks as int - num_checks_in_this_frame as int), num_checks_in_this_frame as nat);
+        assert(got.len() == off + has_lrw + num_checks_in_this_frame);
+    }
+@loop 1
+    invariant
+        __it0.rest@.len() <= got.len() - has_lrw - off,
+        subdevice_states.v@.len() + __it0.rest@.len() == total_checks,
+    decreases __it0.rest@.len()
+@loop_end 0
+    proof {
+        if pushed_chunk is Some {
+            let n = (pushed_chunk->Some_0).0 as int;
+            rx = rx + got[off].data.subrange(0, n);
+            wsum = wsum + got[off].wkc as int;
+        }
+    }
+@closure 0 "|rx: ReceivedPdu| -> (cr: Result<u64, Error>)"
+    ensures rx.data().len() >= 8 ==> cr == Ok::<u64, Error>(le64(rx.data()))
+@before "Ok(TxRxResponse"
+    proof {
+        assert(total_bytes_sent == self.pdi_len);
+        assert(total_checks == self.subdevices@.len());
+        assert(time_read);        // the clock datagram was sent and answered even when the image is empty
     }
 @*/
 
